@@ -189,6 +189,23 @@ func c17Batch(r *mon.Run, bi int) {
 	for i := range maps {
 		maps[i] = randTagMap(rnd)
 	}
+	// pairs of different maps that print alike when keys and values are listed without quoting
+	for i := 20; i+1 < len(maps); i += 40 {
+		m := maps[i]
+		if len(m) < 2 {
+			continue
+		}
+		keys := make([]string, 0, len(m))
+		for k := range m {
+			keys = append(keys, k)
+		}
+		sort.Strings(keys)
+		joined := m[keys[0]]
+		for _, k := range keys[1:] {
+			joined += " " + k + ":" + m[k]
+		}
+		maps[i+1] = map[string]string{keys[0]: joined}
+	}
 	if bi == 0 {
 		// hand-picked shapes
 		maps[0] = nil
